@@ -8,6 +8,7 @@ import (
 	"github.com/gr33nbl00d/caddy-revocation-validator/core"
 	"github.com/gr33nbl00d/caddy-revocation-validator/core/asn1parser"
 	"github.com/gr33nbl00d/caddy-revocation-validator/core/utils"
+	"github.com/gr33nbl00d/caddy-revocation-validator/core/verifhook"
 	"github.com/gr33nbl00d/caddy-revocation-validator/crl/crlloader"
 	"github.com/gr33nbl00d/caddy-revocation-validator/crl/crlreader"
 	"github.com/gr33nbl00d/caddy-revocation-validator/crl/crlstore"
@@ -150,6 +151,7 @@ func (R *Repository) stageCRL(entry *Entry, chains *core.CertificateChains, crlL
 	if err != nil {
 		return nil, err
 	}
+	verifhook.Hit("repo.stage.downloaded")
 	identifier, err := entry.CRLLoader.GetCRLLocationIdentifier()
 	if err != nil {
 		return nil, err
@@ -180,6 +182,7 @@ func (R *Repository) stageCRL(entry *Entry, chains *core.CertificateChains, crlL
 	if err != nil {
 		return store, err
 	}
+	verifhook.Hit("repo.stage.parsed")
 	if R.crlConfig.SignatureValidationModeParsed != config.SignatureValidationModeNone {
 		signatureCert, verifyErr := verifyCRLSignature(result, chains)
 		if verifyErr != nil {
@@ -196,15 +199,18 @@ func (R *Repository) stageCRL(entry *Entry, chains *core.CertificateChains, crlL
 			}
 		}
 	}
+	verifhook.Hit("repo.stage.accepted")
 	return store, nil
 }
 
 // commitStagedCRL makes a staged store the live store of a not yet loaded entry. The entry lock must be held
 func (R *Repository) commitStagedCRL(entry *Entry, store crlstore.CRLStore) error {
+	verifhook.Hit("repo.commit.before")
 	err := entry.CRLStore.Update(store)
 	if err != nil {
 		return err
 	}
+	verifhook.Hit("repo.commit.swapped")
 	entry.Loaded = true
 	entry.Chains = nil
 	R.logger.Debug("crl loaded successfully", zap.String("crl", entry.CRLLoader.GetDescription()))
@@ -363,6 +369,7 @@ func (R *Repository) updateCrlEntry(entry *Entry, newChains *core.CertificateCha
 	if err != nil {
 		return err
 	}
+	verifhook.Hit("repo.refresh.downloaded")
 	identifier, err := loader.GetCRLLocationIdentifier()
 	if err != nil {
 		return err
@@ -383,6 +390,7 @@ func (R *Repository) updateCrlEntry(entry *Entry, newChains *core.CertificateCha
 	if err != nil {
 		return err
 	}
+	verifhook.Hit("repo.refresh.parsed")
 	if R.crlConfig.SignatureValidationModeParsed != config.SignatureValidationModeNone {
 		R.logger.Info("verify crl signature of crl " + entry.CRLLoader.GetDescription())
 		signatureCert, verifyErr := verifyCRLSignature(result, chains)
@@ -402,6 +410,7 @@ func (R *Repository) updateCrlEntry(entry *Entry, newChains *core.CertificateCha
 		}
 	}
 
+	verifhook.Hit("repo.refresh.accepted")
 	err = R.updateEntry(entry, err, store)
 	if err != nil {
 		R.deleteEntrySync(identifier)
@@ -443,7 +452,9 @@ func (R *Repository) getCrlUpdateInformation(entry *Entry, err error) (*core.CRL
 func (R *Repository) updateEntry(entry *Entry, err error, store crlstore.CRLStore) error {
 	entry.entryLock.Lock()
 	defer entry.entryLock.Unlock()
+	verifhook.Hit("repo.refresh.swap.before")
 	err = entry.CRLStore.Update(store)
+	verifhook.Hit("repo.refresh.swap.after")
 	if err != nil {
 		entry.CRLStore.Close()
 		//mark as empty in case someone already acquired the entry and waits for a lock
